@@ -61,12 +61,25 @@ func C16(c *fw.Ctx) {
 			"JSIGHT 0.3\nINFO\n  Title \"The title\"\nTYPE @r regex\n  /z{2}/\nURL /rpc\n  Protocol json-rpc-2.0\n  Method m\n    Params\n      {\"p\": @r}\n    Result\n      @r\n",
 			"JSIGHT 0.3\nENUM @e\n  [\"a\", \"b\"]\nTYPE @t\n  {\n    \"k\": \"a\" // {enum: @e}\n  }\nGET /e\n  Query \"k=a\"\n    {\n      \"k\": \"a\" // {enum: @e}\n    }\n  200 @t\n",
 		}
+		// the exhaustive sequence set goes out in slices, so that no single job runs long enough to meet the hang watchdog on a loaded machine
+		const slice = 1500
+		emitExh := func(j *proto.Job) {
+			for k, part := 0, 0; k < len(seqs); k, part = k+slice, part+1 {
+				e := k + slice
+				if e > len(seqs) {
+					e = len(seqs)
+				}
+				jj := *j
+				jj.ID = fmt.Sprintf("%s~%d", j.ID, part)
+				jj.Seqs = seqs[k:e]
+				emit(&jj)
+			}
+		}
 		for i, d := range favour {
 			j := singleJob(fmt.Sprintf("favour-%d", i), []byte(d), false)
 			j.ID = "favour/" + j.ID
-			j.Seqs = seqs
 			exh++
-			emit(j)
+			emitExh(j)
 		}
 		acceptedWorkload(c, 1, func(label string, j *proto.Job) {
 			if label == "light-mutant" && c.Quick() {
@@ -74,11 +87,11 @@ func C16(c *fw.Ctx) {
 			}
 			j.ID = label + "/" + j.ID
 			if exh < nExh && (label == "targeted" || strings.Contains(string(j.Files[j.Root]), "regex") || strings.Contains(string(j.Files[j.Root]), "allOf")) {
-				j.Seqs = seqs
 				exh++
-			} else {
-				j.Seqs = sampleSeqs(c.Pick(6, 40))
+				emitExh(j)
+				return
 			}
+			j.Seqs = sampleSeqs(c.Pick(6, 40))
 			emit(j)
 		})
 	}, func(j *proto.Job, res *proto.Result) {
@@ -86,6 +99,11 @@ func C16(c *fw.Ctx) {
 			return
 		}
 		label := j.ID[:strings.Index(j.ID, "/")]
+		if res.Fatal != nil {
+			// an accessor call that never returns (or kills the process) is the strongest way of not returning the canonical bytes
+			c.Violate("fatal:"+res.Fatal.Kind+":"+res.Fatal.Func, "the worker process died or hung while the call sequences were run: "+firstLines(res.Fatal.Stderr, 5), replayOf(j, res))
+			return
+		}
 		if sig, _ := crashSig(res); sig != "" || !res.Accepted {
 			c.Count(jobKey(j), false)
 			return
